@@ -2,7 +2,7 @@ import TunnoxModel.Driver.Util
 import TunnoxModel.Spec.C11
 /-!
 Line protocol for C11 (see harness/c11/main.go):
-  case: c <cmdType> p <0|1> f <conn#> s <snd> r <rcv> t <tok|-> b <0|1> m <ref> g <int> k <ref> d <ref> [e <v> <keys>] [q <fault plan>]
+  case: c <cmdType> p <0|1> f <conn#> s <snd> r <rcv> t <tok|-> b <0|1> m <ref> g <int> k <ref> d <ref> [e <v> <keys>] [z <conn#>] [q <fault plan>]
         W [br <0|1>] [ne <0|1>] [xn <0|1>] conns <n> (<step>[><step>…][@<node>])*   (step = <N|U|A|P|F><clientID>; histories run in list order, `Model.connsOf`) maps <n> (<listen>:<target>:<s|t>:<a|i>)* codes <n> (<target>:<0|1|activator>)* doms <n> (<owner>)*
   obs:  <run> ~ <run>,  run = ret <0|1> rsp <n|o|f> view <…|-> chg <…|-> dlv <…|-> gone <…|-> [dig <…|->]
         (dig = digests of delivered payloads / stored records; stripped before the comparison with the model)
@@ -69,9 +69,12 @@ def parseCase' : List String → Option Case
     let extra ← (match rest00 with | "e" :: v :: _ :: _ => v.toNat? | _ => some 0)
     let keys := (match rest00 with | "e" :: _ :: ks :: _ => ks | _ => "")
     let rest01 := (match rest00 with | "e" :: _ :: _ :: r => r | r => r)
+    -- optional `z <conn#>`: the handler outlives the RPC wait and resumes while a command of that connection is in flight
+    let late := (match rest01 with | "z" :: v :: _ => v.toNat? | _ => none)
+    let rest02 := (match rest01 with | "z" :: _ :: r => r | r => r)
     -- optional `q <fault plan>`: which reads of the named mapping's record fail
-    let faults ← (match rest01 with | "q" :: v :: _ => v.toNat? | _ => some 0)
-    let rest0 ← (match rest01 with | "q" :: _ :: "W" :: r => some r | "W" :: r => some r | _ => none)
+    let faults ← (match rest02 with | "q" :: v :: _ => v.toNat? | _ => some 0)
+    let rest0 ← (match rest02 with | "q" :: _ :: "W" :: r => some r | "W" :: r => some r | _ => none)
     -- the harness must have used exactly the keys the current source yields
     if extra != 0 && keys != keysStr then none
     let bridge := (match rest0 with | "br" :: "1" :: _ => true | _ => false)
@@ -90,7 +93,7 @@ def parseCase' : List String → Option Case
     let f ← f.toNat?
     if f ≥ conns.length then none
     pure ⟨⟨connsOf conns, maps ++ derivedMaps codes, codes, doms, noExec, xnode, bridge⟩, f,
-      ⟨← ct.toNat?, p == "1", s, r, t, b == "1", ← m.toInt?, ← g.toInt?, ← k.toInt?, ← d.toInt?, 0, extra, faults⟩⟩
+      ⟨← ct.toNat?, p == "1", s, r, t, b == "1", ← m.toInt?, ← g.toInt?, ← k.toInt?, ← d.toInt?, 0, extra, faults, late⟩⟩
   | _ => none
 
 /-- `x …` marks an excluded point of the correspondence (ambiguous default DNS target: the implementation's choice
